@@ -216,6 +216,13 @@ def repo_src_hash():
 HOOKS = {"on": True, "note": ""}
 
 
+def _install(src, dst):
+    """copy then rename: replacing the file atomically works while another check is still executing the old binary"""
+    tmp = "%s.%d.tmp" % (dst, os.getpid())
+    shutil.copy2(src, tmp)
+    os.replace(tmp, dst)
+
+
 def build_driver():
     """Build the driver against /repo's working tree with the hooks on. If the tree only fails to build WITH the guard
     (a change broke a guarded hook call), fall back to a build without the guard: every check that does not need the
@@ -232,13 +239,13 @@ def build_driver():
     rc, out = sh("cargo build --release --offline", cwd=DRIVER_DIR, env=env, timeout=3000)
     if rc == 0:
         HOOKS.update(on=True, note="")
-        shutil.copy2(os.path.join(TARGET, "release", "driver"), DRIVER)
+        _install(os.path.join(TARGET, "release", "driver"), DRIVER)
         return True, out
     env2 = {"CARGO_NET_OFFLINE": "true", "CARGO_TARGET_DIR": TARGET + "-nohooks"}
     rc2, out2 = sh("cargo build --release --offline", cwd=DRIVER_DIR, env=env2, timeout=3000)
     if rc2 == 0:
         HOOKS.update(on=False, note="build with %s failed, hooks off: %s" % (GUARD, out[-600:]))
-        shutil.copy2(os.path.join(TARGET + "-nohooks", "release", "driver"), DRIVER)
+        _install(os.path.join(TARGET + "-nohooks", "release", "driver"), DRIVER)
         return True, out2
     return False, out
 
@@ -354,7 +361,11 @@ def run_coq_cases(items, requires, workdir, shard_size=60, jobs=16, timeout=900)
 
     def run(p):
         # large string literals (embedded sources) need a deep parser stack
-        rc, out = sh("ulimit -s unlimited 2>/dev/null || ulimit -s 1000000; exec coqc -noglob -Q '%s' W2W '%s'" % (COQ, p), timeout=timeout)
+        # (and a runaway evaluation must end as a failed shard, not take the machine down: 12 GB of address space, the time limit)
+        try:
+            rc, out = sh("ulimit -s unlimited 2>/dev/null || ulimit -s 1000000; ulimit -v 12000000; exec coqc -noglob -Q '%s' W2W '%s'" % (COQ, p), timeout=timeout)
+        except subprocess.TimeoutExpired:
+            rc, out = 124, "coqc did not finish %s within %d s" % (os.path.basename(p), timeout)
         return p, rc, out
 
     verdicts, errors = {}, []
